@@ -1685,6 +1685,49 @@ func (o *c16Orch) confirm(target, build string, in []byte, reason, firstStderr s
 	return false
 }
 
+// ---- parent: large repetitive inputs ---------------------------------------------------------
+
+// c16BombUnits are repeated up to c16BombSize bytes: inputs that are tiny to describe and large to
+// read. Whatever a parser does once per blank line, per blank, per opening bracket or per empty
+// record (recursion instead of a loop, a re-scan from the start, an allocation that is kept) shows
+// only at this size; every other input of the check is at most 200 KiB.
+var c16BombUnits = []string{"\n", " ", "\r\n", "\t\n", "#\n", "[", "\"", "{}\n", ",\n", "GET /\n\n", "\n\n\n\nx"}
+
+const c16BombSize = 6 << 20
+
+// runBombs feeds each large repetitive input to every library target in an isolated child of its
+// own (same limits and the same judge as the isolated re-runs of suspects).
+func (o *c16Orch) runBombs() {
+	type job struct {
+		target string
+		unit   string
+	}
+	ch := make(chan job)
+	var wg sync.WaitGroup
+	for w := 0; w < runtime.NumCPU()/2+1; w++ {
+		wg.Add(1)
+		go func() {
+			defer wg.Done()
+			for j := range ch {
+				in := []byte(strings.Repeat(j.unit, c16BombSize/len(j.unit)))
+				if strings.HasSuffix(j.unit, "x") {
+					in = in[:len(in)-1] // ...and no last line
+				}
+				o.run.Count("large_repetitive_inputs", 1)
+				o.run.Count("large_repetitive_input_bytes", int64(len(in)))
+				o.confirm(j.target, "plain", in, "bomb", "", &c16Case{I: -1, Shard: "bombs", Target: j.target, Gen: fmt.Sprintf("repeat(%q)", j.unit)})
+			}
+		}()
+	}
+	for _, u := range c16BombUnits {
+		for _, t := range c16LibTargets {
+			ch <- job{t, u}
+		}
+	}
+	close(ch)
+	wg.Wait()
+}
+
 // ---- parent: lib shards --------------------------------------------------------------------
 
 func (o *c16Orch) hungList() string {
@@ -2105,6 +2148,7 @@ func runC16(c *Ctx) int {
 	}
 	close(ch)
 	wg.Wait()
+	o.runBombs()
 
 	if n := run.Counter("race_report_blocks_not_attributed"); n > 0 {
 		run.Inconclusive(fmt.Sprintf("%d race reports without a vegeta frame (a race inside the harness itself)", n))
